@@ -20,6 +20,7 @@ import (
 	"io"
 	"os"
 	"os/exec"
+	"path/filepath"
 	"runtime"
 	"sort"
 	"sync"
@@ -473,7 +474,32 @@ func Run(cfg Config, opString func(int) string) Stats {
 		frontier = next
 	}
 
+	dumpKeys(cfg.System, seen)
+
 	return st
+}
+
+// dumpKeys writes the state keys of one exploration to $VERIF_BFS_DUMPKEYS.<system>
+// (debugging aid: two runs over the same tree must produce identical files).
+func dumpKeys(system string, seen map[string]bool) {
+	f := os.Getenv("VERIF_BFS_DUMPKEYS")
+	if f == "" {
+		return
+	}
+
+	keys := make([]string, 0, len(seen))
+	for k := range seen {
+		keys = append(keys, k)
+	}
+
+	sort.Strings(keys)
+
+	var b []byte
+	for _, k := range keys {
+		b = append(b, "=== state\n"+k+"\n"...)
+	}
+
+	_ = os.WriteFile(f+"."+filepath.Base(system), b, 0o644)
 }
 
 func lessInts(a, b []int) bool {
